@@ -61,7 +61,7 @@ Step ==
                   /\ fed >= I.target
                   /\ (I.store => (sfLeft % I.g = 0 /\ cropLeft % I.g = 0))
                   /\ sf' = sfLeft - I.g * hSf /\ crop' = cropLeft - I.g * hCrop
-                  /\ meatSup' = meatSup + I.meat[m] /\ meatUse' = meatUse + I.g * room
+                  /\ meatSup' = (IF I.store THEN meatSup + I.meat[m] ELSE 0) /\ meatUse' = (IF I.store THEN meatUse + I.g * room ELSE 0)
                   /\ hist' = Append(hist, [sf |-> hSf, crops |-> hCrop, meat |-> room, scp |-> scpRoom, feed |-> <<fSf, fCrop, fScp>>])
           ELSE \E hSf \in 0..Min2(I.target, sfLeft \div I.g), hCrop \in 0..Min2(I.target, cropLeft \div I.g), e \in 0..Min2(I.target, room) :
                LET hScp == I.target - hSf - hCrop - e IN
@@ -69,7 +69,8 @@ Step ==
                \* in the first-year-only regime stored food may not be eaten after month 12 (index 13 on)
                /\ (~I.store /\ m > 13 => hSf = 0 /\ fSf = 0)
                /\ sf' = sfLeft - I.g * hSf /\ crop' = cropLeft - I.g * hCrop
-               /\ meatSup' = meatSup + I.meat[m] /\ meatUse' = meatUse + I.g * e
+               \* (the running meat totals only matter when meat can be kept: otherwise they are not part of the state)
+               /\ meatSup' = (IF I.store THEN meatSup + I.meat[m] ELSE 0) /\ meatUse' = (IF I.store THEN meatUse + I.g * e ELSE 0)
                /\ hist' = Append(hist, [sf |-> hSf, crops |-> hCrop, meat |-> e, scp |-> hScp, feed |-> <<fSf, fCrop, fScp>>])
   /\ mon' = mon + 1
   /\ UNCHANGED iid
